@@ -30,7 +30,9 @@ import (
 
 func c10Alphabet(tier string) []*explore.Action {
 	e10 := chain.T0.Add(10 * time.Second)
-	buy := scen.Msg("BuyDirect(D,order1,0.5,no-max-fee)!", scen.MkBuyMsg(scen.D, 1, "0.5", sdk.NewInt64Coin("uregen", 3), true)) // fails: the buyer fee is not covered
+	buyNo := scen.MkBuyMsg(scen.D, 1, "0.5", sdk.NewInt64Coin("uregen", 3), true).(*markettypes.MsgBuyDirect)
+	buyNo.Orders[0].MaxFeeAmount = nil
+	buy := scen.Msg("BuyDirect(D,order1,0.5,no-max-fee)!", buyNo) // fails in the handler: the buyer fee (1) is not covered
 	buyOK := scen.MkBuyMsg(scen.D, 1, "0.5", sdk.NewInt64Coin("uregen", 3), true).(*markettypes.MsgBuyDirect)
 	buyOK.Orders[0].MaxFeeAmount = &sdk.Coin{Denom: "uregen", Amount: sdk.NewInt(5)}
 	a := []*explore.Action{
